@@ -91,7 +91,7 @@ func TestC04_Schedules(t *testing.T) {
 		}
 		// the identifying header may be a credential header, and the configuration may spell the
 		// name in any case; a third of the limiters log verbosely
-		hs := rapid.SampledFrom([][2]string{{"X-Src", "X-Src"}, {"X-Src", "x-src"}, {"X-Src", "X-SRC"}, {"Authorization", "Authorization"}, {"X-Api-Key", "X-API-Key"}, {"Cookie", "Cookie"}, {"Host", "request.host"}}).Draw(t, "sourceHeader")
+		hs := rapid.SampledFrom([][2]string{{"X-Src", "X-Src"}, {"X-Src", "x-src"}, {"X-Src", "X-SRC"}, {"Authorization", "Authorization"}, {"X-Api-Key", "X-API-Key"}, {"Cookie", "Cookie"}, {"Host", "request.host"}, {"X-Tenant.Id", "X-Tenant.Id"}, {"X.Org.Unit", "x.org.unit"}}).Draw(t, "sourceHeader")
 		srcHeader, srcSpelling = hs[0], hs[1]
 		verboseLimiter = rapid.IntRange(0, 2).Draw(t, "verbose") == 0
 		defer func() { srcHeader, srcSpelling, verboseLimiter = "X-Src", "X-Src", false }()
